@@ -3,6 +3,7 @@ package props
 import (
 	"fmt"
 	"os"
+	"path/filepath"
 	"regexp"
 	"strconv"
 	"strings"
@@ -144,7 +145,7 @@ func (c18) Gen(r *sim.Rand, c *sim.Case, tier string) {
 		c.Cfg["loop"] = 1
 	}
 	// data
-	d := &world.TData{Vars: map[string]any{}, Images: map[string][]int{"pic": {r.Intn(3), 6, 5, 424242}}}
+	d := &world.TData{Vars: map[string]any{}, Images: map[string][]int{"pic": world.TplImageSpec(r, []int{r.Intn(3), 6, 5, 424242})}}
 	vals := []any{"plain", "Ünï 中文", "a<b>&\"c'", "  spaced  ", "", float64(r.Range(-5, 900)), 12.5, true, "tab\there", "ctl\x01char"}
 	if Wild {
 		vals = append(vals, "{{title}}")
@@ -350,7 +351,7 @@ func (c18) Exec(c *sim.Case, env *Env) []sim.Violation {
 				rerr = e
 				return
 			}
-			d, rerr = eng.RenderTemplateToDocument("t", data.ToLib())
+			d, rerr = eng.RenderTemplateToDocument("t", data.ToLibIn(filepath.Join(dir, "tplimg")))
 			if rerr == nil && d != nil {
 				out, rerr = d.ToBytes()
 			}
@@ -544,7 +545,7 @@ func (c18) Exec(c *sim.Case, env *Env) []sim.Violation {
 			if _, e := eng.LoadTemplateFromDocument("t", base.D); e != nil {
 				return
 			}
-			dA, _ = eng.RenderTemplateToDocument("t", data.ToLib())
+			dA, _ = eng.RenderTemplateToDocument("t", data.ToLibIn(filepath.Join(dir, "tplimg")))
 			if dA == nil {
 				return
 			}
@@ -557,7 +558,7 @@ func (c18) Exec(c *sim.Case, env *Env) []sim.Violation {
 				}
 				other.Images[k] = nv
 			}
-			dB, _ := eng.RenderTemplateToDocument("t", other.ToLib())
+			dB, _ := eng.RenderTemplateToDocument("t", other.ToLibIn(filepath.Join(dir, "tplimg")))
 			if dB != nil {
 				_, _ = dB.AddImageFromData(world.MakeImage("gif", 3, 3, 9191), "late.gif", document.ImageFormatGIF, 3, 3, nil)
 				_ = dB.AddFooter(document.HeaderFooterTypeEven, "later footer")
